@@ -25,13 +25,97 @@ SMALL_SIZES = {1: [(1,), (2,), (3,), (4,), (5,), (6,), (7,)],
 QUICK_SMALL_SIZES = {1: [(1,), (2,), (3,)], 2: [(1, 2), (2, 1)], 3: [(1, 2, 1)]}
 
 
+_IMPL_CACHE = {}
+
+
 def implementer(sm, module, dispatcher, meshcls):
-    """(function name, projection index, call node, branch line) chosen by the dispatcher for a class"""
+    """(function name, projection index, call node, branch line) chosen by the dispatcher for a class.  Read off the
+    if/elif chain of type tests when the dispatcher is written that way; for any other form (dictionary dispatch, helper
+    functions, ...) the dispatcher is *interpreted* for that class and the first function of its module it calls is taken.
+    The name is used for labelling constructs and locations only - the checks always call the public dispatcher."""
+    key = (sm.__dict__.setdefault('_dg', sm.digest()), module, dispatcher, meshcls)
+    if key in _IMPL_CACHE:
+        return _IMPL_CACHE[key]
     fi = sm.func(module, dispatcher)
-    tab = dispatch_table(sm, fi)
-    body, line = tab[meshcls]
-    fname, call, proj = branch_callee(body)
-    return fname, proj, call, line
+    try:
+        tab = dispatch_table(sm, fi)
+        body, line = tab[meshcls]
+        fname, call, proj = branch_callee(body)
+        if fname is not None and module in sm.modules and fname not in sm.module(module).functions:
+            raise AnalysisError('branch does not call a function of the module')
+        res = (fname, proj, call, line)
+    except AnalysisError:
+        res = _implementer_dynamic(sm, module, dispatcher, meshcls)
+    _IMPL_CACHE[key] = res
+    return res
+
+
+def dispatch_probe(sm, module, dispatcher, meshcls):
+    """interpret the public dispatcher for one grid class with symbolic arguments: (exception name or None, call trace)"""
+    from .arrays import Arr
+    w = World(sm, meshcls)
+    if dispatcher == 'cellValuesWithBoundaries':
+        interior = Box(Arr(tuple(w.N), lambda idx: Rat.atom(('phi',) + tuple(i + 1 for i in idx))))
+        args = (interior, w.boundary_conditions())
+    elif dispatcher == 'boundaryConditionsTerm':
+        args = (w.boundary_conditions(),)
+    elif dispatcher == 'convectionTVDupwindRHSTerm':
+        args = (w.face_variable('u'), w.cell_variable('phi'), OpaqueFn('FL'))
+    elif dispatcher == 'gradientTerm':
+        args = (w.cell_variable('phi'),)
+    else:
+        args = (w.face_variable('c'),)
+    w.interp.trace.clear()
+    exc = None
+    try:
+        w.call(module, dispatcher, *args)
+    except AbstractRaise as e:
+        exc = e.exc
+    return exc, list(w.interp.trace)
+
+
+def _implementer_dynamic(sm, module, dispatcher, meshcls):
+    fi = sm.func(module, dispatcher)
+    _exc, tr = dispatch_probe(sm, module, dispatcher, meshcls)
+    me = f"{module}.{dispatcher}"
+    after = tr[tr.index(me) + 1:] if me in tr else tr
+    mod = sm.module(module)
+    for q in after:
+        m_, _, n_ = q.partition('.')
+        if m_ == module and n_ in mod.functions and n_ != dispatcher and not n_.startswith('_'):
+            return (n_, None, None, fi.node.lineno)
+    return (None, None, None, fi.node.lineno)
+
+
+def _unused_implementer_dynamic(sm, module, dispatcher, meshcls):
+    from .arrays import Arr
+    w = World(sm, meshcls)
+    fi = sm.func(module, dispatcher)
+    if dispatcher == 'cellValuesWithBoundaries':
+        interior = Box(Arr(tuple(w.N), lambda idx: Rat.atom(('phi',) + tuple(i + 1 for i in idx))))
+        args = (interior, w.boundary_conditions())
+    elif dispatcher == 'boundaryConditionsTerm':
+        args = (w.boundary_conditions(),)
+    elif dispatcher == 'convectionTVDupwindRHSTerm':
+        args = (w.face_variable('u'), w.cell_variable('phi'), OpaqueFn('FL'))
+    elif dispatcher == 'gradientTerm':
+        args = (w.cell_variable('phi'),)
+    else:
+        args = (w.face_variable('c'),)
+    w.interp.trace.clear()
+    try:
+        w.call(module, dispatcher, *args)
+    except AbstractRaise:
+        pass
+    tr = list(w.interp.trace)
+    me = f"{module}.{dispatcher}"
+    after = tr[tr.index(me) + 1:] if me in tr else tr
+    mod = sm.module(module)
+    for q in after:
+        m_, _, n_ = q.partition('.')
+        if m_ == module and n_ in mod.functions and n_ != dispatcher and not n_.startswith('_'):
+            return (n_, None, None, fi.node.lineno)
+    return (None, None, None, fi.node.lineno)
 
 
 def face_classes(w: World, a, tier):
